@@ -227,8 +227,30 @@ def runOps (full : Bool) : World → List Json → List Json → Except String (
     runOps full w1 rest (obj ([("res", resJ r), ("out", out), ("pre", toJson pre),
       ("devok", toJson (decide (DevOK w1))), ("named", toJson (decide (Named w1)))] ++ st) :: acc)
 
+/-- `device.inst`: the inliner's instantiation of one body node: `node` = {i, o, d} as printed by `nodeJ`,
+    `vm` = [[formal, actual|null], ...], `base` = id of the first new output -/
+def instReq (j : Json) : Except String Json := do
+  let nj ← j.getObjVal? "node"
+  let ins ← (← getArr nj "i").mapM parseOptNat
+  let outs ← getNats nj "o"
+  let dev ← (← getArr nj "d").mapM parseNodeCfg
+  let vm ← (← getArr j "vm").mapM (fun p => do
+    match p with
+    | Json.arr a =>
+      if a.size = 2 then
+        let k ← fromJson? (α := Nat) a[0]!
+        let t ← parseOptNat a[1]!
+        pure (k, t)
+      else throw "vm"
+    | _ => throw "vm")
+  let base ← getNat j "base"
+  match instNode vm { inputs := ins, outputs := outs, dev := dev } base with
+  | none => pure (obj [("res", "raised")])
+  | some nd => pure (obj [("res", "ok"), ("node", nodeJ nd)])
+
 def handle : Handler := fun m j =>
   match m with
+  | "device.inst" => some (instReq j)
   | "device.run" => some do
       let ops ← getArr j "ops"
       let full := (j.getObjValAs? Bool "full").toOption.getD true
